@@ -102,6 +102,28 @@ def encode(levels, times, curves='lin', release_node=None, loop_node=None):
     return out
 
 
+def encode_interpolation(levels, times, curves='lin', offset=0):
+    """IEnvGen array (IEnvGen documentation): [offset, initial level, number of
+    segments, total duration, (duration, shape, curvature, target level) *
+    segments], one list per channel."""
+    nseg = len(levels) - 1
+    times = wrap_to(as_list(times), nseg)
+    curves = wrap_to(as_list(curves), nseg)
+    out = []
+    for c in range(channels_of(levels, times, curves)):
+        lv = [pick(x, c) for x in levels]
+        tm = [pick(x, c) for x in times]
+        total = 0
+        for x in tm:
+            total = total + x
+        arr = [0 if offset is None else offset, lv[0], nseg, total]
+        for i in range(nseg):
+            shape, curv = shape_of(pick(curves[i], c))
+            arr += [tm[i], shape, curv, lv[i + 1]]
+        out.append(arr)
+    return out
+
+
 def segments(arr):
     """Decode one channel's array -> (l0, [(level, dur, shape, curve)...])."""
     n = arr[1]
